@@ -201,7 +201,12 @@ def injected_faults(sc, seed, tier, only=None):
             # ... or (EngineFaults.v, second half) the DELETION of stale entries failed: the entry stays, and of what is below a directory
             # whose removal stopped half-way [junk] lists what is still there
             del_fault = {pth for pth in errp if pth not in raw["src"] and pth in raw["before"] and fl.get("delete")}
-            if errp and all((pth in raw["src"] and raw["src"][pth]["kind"] == "f") or pth in del_fault for pth in errp) and not raw["refused"] and not xargs:
+            # (an injected ENOENT on the unlink / rmdir of an entry that EXISTS is not a fault the kernel can produce; the engine reads
+            # ENOENT as "already gone with its parent" -- a completed deletion -- and the model has no such fault: not compared)
+            enoent_on_delete = en == E.ENOENT and any(h[1] in ("unlink", "rmdir") for h in hit)
+            if enoent_on_delete:
+                stats["ef_skipped_enoent_on_delete"] = stats.get("ef_skipped_enoent_on_delete", 0) + 1
+            if errp and all((pth in raw["src"] and raw["src"][pth]["kind"] == "f") or pth in del_fault for pth in errp) and not raw["refused"] and not xargs and not enoent_on_delete:
                 idp = {raw["ids"].path(pth) for pth in errp}
                 didp = {raw["ids"].path(pth) for pth in del_fault}
                 dst_items = dict(x.split("=", 1) for x in raw["obs"].split(" ")).get("dst", "-")
